@@ -201,6 +201,36 @@ pub fn run(tier: Tier, seed: u64) -> i32 {
             run.count("paths", all_paths.len() as u64);
         }
 
+        // ---- (1b) the same paths over a function result (identity functions on containers) ---
+        {
+            let (tag_id, uni_id) = unis::containers_id(nil_ne);
+            for (fname, field) in unis::ID_FNS {
+                let ty = uni_id.fields.iter().find(|(n, _, _)| n == field).map(|(_, t, _)| t.clone()).expect("field");
+                let mut ctxs: Vec<MCtx> = vec![MCtx::new()];
+                for v in pool(&ty) {
+                    let mut m = MCtx::new();
+                    m.insert(field.to_string(), v);
+                    ctxs.push(m);
+                }
+                let b = Bench::new(&tag_id, uni_id.clone(), ctxs);
+                let all_paths = paths(&ty, true);
+                par_for(all_paths.len(), ncpu(), |pi| {
+                    let l = Lhs::callp(fname, vec![Arg::Lhs(Lhs::field(field))], all_paths[pi].clone());
+                    for e in single_operand_exprs(&b.uni, &l) {
+                        note(check_filter(&run, ID, &b, &e));
+                        run.count("function_result_path_filters", 1);
+                        if pi == 5 {
+                            run.sample(8, || json!({"layer": "paths over a function result", "universe": b.tag, "filter": render(&e), "contexts": b.ctxs.len()}));
+                        }
+                    }
+                    if l.each_count() == 0 {
+                        check_value(&run, ID, &b, &l);
+                    }
+                });
+                run.count("function_result_paths", all_paths.len() as u64);
+            }
+        }
+
         // ---- (2) element-wise logic over operands of unequal lengths -----------------------
         // operands (all of type Array(Bool)) and the fields they read
         let operands: Vec<Expr> = vec![
